@@ -12,6 +12,10 @@ Case format (lines of integers; a statement's label is its position among the st
   [4, label, ty]                                                delayed_binding placeholder
   [5, label, ph, ref, npath, path..]                            bind placeholder ph to node ref's port
   [6, label, a, b]                                              add_rank_dependency(node a, depends_on b)
+  [10, label, path, ref]                                        register_service_rank_anchor(path, node ref)
+  [11, label, path, ref, receive]                               register_service_client_rank(path, kind, node ref, receive)
+        (at finish: a receiving client is ranked after the path's anchor, a sending client before it;
+         at run time senders hand a value to the anchor and the anchor to receivers out of band, within the cycle)
   [8, k, labels...]                                             k-th statement order
   [12, cl, child, def, out_ty, has_sc, nsc, sc...]              node statement cl of SUB-GRAPH wiring `child` (a separate
                                                                 Wiring of kind SubGraph, wired after the parent's statements;
@@ -21,7 +25,7 @@ Case format (lines of integers; a statement's label is its position among the st
         (lines 12/13 are not modelled in Coq - the decoder skips them; they are judged by the oracle only)
 Implementation output per order k:
   [20,k,code] 0 built, 1 cycle, 2 push-source dependency, 3 unbound placeholder, 4 self dependency,
-              6 inadmissible order, 8 rebind, 9 passive marker on every active input, 5 other
+              6 inadmissible order, 8 rebind, 9 passive marker on every active input, 10 anchor conflict, 5 other
   [27,k,creator,active slots...]  active-input list of each compiled native node with inputs
   [28,k,child,err,cl,rep(cl),...] interning map of each sub-graph wiring
   [23,k,rep(label)...]  label of the statement whose node each node statement was merged into (-1: not a node)
@@ -37,8 +41,8 @@ PIPE = True
 BUDGET = {"quick": 300, "thorough": 4000}
 
 PROP_KINDS = {
-    "C01": {"order", "dep_order", "verdict", "push_prefix", "perm", "edges"},
-    "C06": {"merge", "sink_merged", "streams", "evals", "perm", "verdict_varies", "count_varies", "passive_marker_not_in_key"},
+    "C01": {"order", "dep_order", "verdict", "push_prefix", "perm", "edges", "handover"},
+    "C06": {"merge", "sink_merged", "streams", "evals", "perm", "verdict_varies", "count_varies", "passive_marker_not_in_key", "handover"},
 }
 
 
@@ -85,6 +89,10 @@ def encode(prog, orders, end_time=12, exe=1):
             case.append([5, lab, st["ph"], st["ref"], len(st["path"])] + list(st["path"]))
         elif st["t"] == "dep":
             case.append([6, lab, st["a"], st["b"]])
+        elif st["t"] == "anchor":
+            case.append([10, lab, st["path"], st["ref"]])
+        elif st["t"] == "client":
+            case.append([11, lab, st["path"], st["ref"], st["recv"]])
     for k, o in enumerate(orders):
         case.append([8, k] + list(o))
     return case
@@ -108,6 +116,10 @@ def decode(case):
             prog.append({"t": "bind", "ph": l[2], "ref": l[3], "path": tuple(l[5:5 + l[4]])})
         elif l[0] == 6:
             prog.append({"t": "dep", "a": l[2], "b": l[3]})
+        elif l[0] == 10:
+            prog.append({"t": "anchor", "path": l[2], "ref": l[3]})
+        elif l[0] == 11:
+            prog.append({"t": "client", "path": l[2], "ref": l[3], "recv": l[4]})
         elif l[0] == 8:
             orders.append(list(l[2:]))
     return prog, orders, end_time, exe
@@ -203,6 +215,8 @@ def stmt_needs(st):
         return [st["ph"], st["ref"]]
     if st["t"] == "dep":
         return [st["a"], st["b"]]
+    if st["t"] in ("anchor", "client"):
+        return [st["ref"]]
     return []
 
 
@@ -289,6 +303,8 @@ def gen_program(rng, tier, prop):
         feats.add("forward")       # consumer wired before its producer through a delayed_binding placeholder
     if rng.random() < 0.15:
         feats.add(rng.choice(["cyc_self", "cyc_2", "cyc_long", "cyc_dep", "cyc_dep_merge"]))
+    if rng.random() < (0.25 if prop == "C01" else 0.12):
+        feats.add("service")
     if rng.random() < 0.04:
         feats.add(rng.choice(["unbound", "rebind", "selfdep", "pushdep", "unbound_free", "allpassive"]))
     dup_rate = 0.35 if prop == "C06" else 0.15
@@ -493,6 +509,33 @@ def gen_program(rng, tier, prop):
             add({"t": "dep", "a": b, "b": a})     # later node after earlier node: consistent with the canonical order
             if rng.random() < 0.3:
                 add({"t": "dep", "a": b, "b": a})   # duplicate: de-duplicated by the code
+    # service rank contract: a hub (anchor) with >= 2 DISTINCT sending and >= 2 distinct receiving clients per
+    # path.  The receivers are wired BEFORE the hub and the senders AFTER it, i.e. on the wrong side by insertion
+    # order; all of them tick with one common source so that the hand-over of a cycle is observable.
+    if "service" in feats:
+        for path in range(rng.choice([1, 1, 2])):
+            base = rng.choice([v for v in vals if prog[v]["kind"] == 0] or vals)
+            uniq_sc = lambda k: (1, (path, k, rng.randrange(0, 3)))
+            recvs = [add(_node(1, rng.randrange(3, 6), 1, *uniq_sc(10 + k), ins=[_inp(("p", base, ()))])) for k in range(rng.choice([2, 2, 3]))]
+            hub = add(_node(1, rng.randrange(3, 8), 1, *uniq_sc(0), ins=[_inp(("p", base, ()))]))
+            sends = [add(_node(1, rng.randrange(3, 6), 1, *uniq_sc(20 + k), ins=[_inp(("p", base, ()))])) for k in range(rng.choice([2, 2, 3]))]
+            made += recvs + [hub] + sends
+            regs = [{"t": "anchor", "path": path, "ref": hub}]
+            regs += [{"t": "client", "path": path, "ref": x, "recv": 0} for x in sends]
+            regs += [{"t": "client", "path": path, "ref": x, "recv": 1} for x in recvs]
+            if rng.random() < 0.3:
+                regs.append({"t": "client", "path": path, "ref": rng.choice(sends), "recv": 0})     # registered twice
+            if rng.random() < 0.3:
+                regs.append({"t": "anchor", "path": path, "ref": hub})                            # same anchor again: fine
+            if rng.random() < 0.2:
+                regs.append({"t": "client", "path": path, "ref": hub, "recv": rng.randrange(2)})     # the anchor as its own client: skipped
+            if rng.random() < 0.2:
+                regs.append({"t": "client", "path": path + 7, "ref": rng.choice(sends), "recv": 1})  # a path without anchor: skipped
+            rng.shuffle(regs)
+            for r in regs:
+                add(r)
+            for x in recvs + [hub] + sends:
+                add(_node(2, 0, 0, ins=[_inp(("p", x, ()))]))
     # unbroken cycles
     cyc = [f for f in feats if f.startswith("cyc")]
     if cyc:
@@ -688,6 +731,14 @@ def rank_graph(prog, rep):
                         edges.add((rep[p], rep[l]))
         elif st["t"] == "dep":
             edges.add((rep[st["b"]], rep[st["a"]]))
+    # service rank contract: anchor -> receiving client, sending client -> anchor
+    anchors = {}
+    for st in prog:
+        if st["t"] == "anchor" and st["path"] not in anchors:
+            anchors[st["path"]] = rep[st["ref"]]
+    for st in prog:
+        if st["t"] == "client" and st["path"] in anchors and anchors[st["path"]] != rep[st["ref"]]:
+            edges.add((anchors[st["path"]], rep[st["ref"]]) if st["recv"] else (rep[st["ref"]], anchors[st["path"]]))
     return edges
 
 
@@ -747,6 +798,7 @@ def oracle(prop, case, out):
         fails.append(("passive_marker_not_in_key",
                       "statements %d and %d differ in the passive marker of an input but share one node" % (a, b)))
     children = decode_children(case)
+    has_service = any(st["t"] == "client" for st in prog)
     for k in range(len(orders)):
         o = obs.get(k)
         if o is None or o["code"] is None:
@@ -775,7 +827,7 @@ def oracle(prop, case, out):
         if code == 5:
             fails.append(("verdict", "order %d: wiring failed with an exception that is none of the documented rejections" % k))
             continue
-        if code in (3, 4, 6, 8, 9) or reps is None:
+        if code in (3, 4, 6, 8, 9, 10) or reps is None:
             continue     # malformed programs: the wiring statement itself is refused; nothing to rank
         rep = list(reps) + [-1] * (len(prog) - len(reps))
         nodes_l = [l for l, st in enumerate(prog) if is_node(st)]
@@ -856,8 +908,9 @@ def oracle(prop, case, out):
             else:
                 if o["streams"] != ref_streams:
                     bad = [s for s in ref_streams if o["streams"].get(s) != ref_streams[s]]
-                    fails.append(("passive_marker_not_in_key" if marker_pairs else "streams",
-                                  "order %d: sink %s saw a different stream than in order 0" % (k, bad[:4])))
+                    fails.append(("passive_marker_not_in_key" if marker_pairs else "handover" if has_service else "streams",
+                                  "order %d: sink %s saw a different stream than in order 0" % (k, bad[:4])
+                                  + (" (a node combined a service hand-over of another cycle, or missed this cycle's)" if has_service else "")))
                 if ev != ref_evals:
                     fails.append(("passive_marker_not_in_key" if marker_pairs else "evals",
                                   "order %d: evaluation counts differ from order 0" % k))
@@ -865,7 +918,7 @@ def oracle(prop, case, out):
             fails.append(("streams", "order %d: the built graph failed to run" % k))
     # two different statement-time refusals (self dependency, rebind) in one malformed program surface in
     # whichever order the statements run: not a property of the dataflow.  Everything else must not vary.
-    if len(verdicts) > 1 and not verdicts <= {4, 6, 8, 9}:
+    if len(verdicts) > 1 and not verdicts <= {4, 6, 8, 9, 10}:
         fails.append(("verdict_varies", "verdicts differ across statement orders: %s" % sorted(verdicts)))
     if len(counts) > 1:
         fails.append(("count_varies", "node counts differ across statement orders: %s" % sorted(counts)))
@@ -897,6 +950,8 @@ def stats(case, out):
          "with_forward_reference": int(any(is_node(st) and any(i["rank"] and src_refs(i["src"])[1] for i in st["ins"]) for st in prog)),
          "with_passive_marker": int(any(is_node(st) and any(i.get("passive") for i in st["ins"]) for st in prog)),
          "with_passive_marker_pair": int(bool(passive_pairs(prog))),
+         "with_service_endpoint": int(any(st["t"] == "anchor" for st in prog)),
+         "service_clients": sum(1 for st in prog if st["t"] == "client"),
          "with_subgraph_wiring": int(any(l[0] == 12 for l in case)),
          "subgraph_statements": sum(1 for l in case if l[0] == 12),
          "executed": 0}
@@ -945,6 +1000,8 @@ def drop_stmt(prog, orders, i):
             st["ph"], st["ref"] = m[st["ph"]], m[st["ref"]]
         elif st["t"] == "dep":
             st["a"], st["b"] = m[st["a"]], m[st["b"]]
+        elif st["t"] in ("anchor", "client"):
+            st["ref"] = m[st["ref"]]
         new.append(st)
     return new, [[m[x] for x in o if x != i] for o in orders]
 
